@@ -17,8 +17,8 @@ import (
 func init() {
 	Register("C12", &Info{
 		Run:   runC12,
-		Quick: 3000, Thor: 300000,
-		Rule: "a world = one fingerprint (every predefined parrot by stratum, randomized, generated specs, fingerprinted copies) against the reference server applying exactly one deviation drawn from the complement of what the ON-WIRE hello offers, with a transcript that stays coherent: TLS 1.3 suite not offered, TLS 1.2 suite announced under TLS 1.3, GREASE suite (the wire value and another one), TLS 1.2 suite not offered, suite that is in Config.CipherSuites but not on the wire, key_share group not offered, group listed without a share answered without HelloRetryRequest, HelloRetryRequest for an unoffered group or for a group already shared, ALPN protocol not offered (or ALPN without an offer), compression method 1, a PSK selection without/with a bad index, a certificate compressed with an unadvertised algorithm, legacy session id not echoed, TLS 1.2 ECDHE curve not offered; 1 world in 8 applies no deviation and must complete (reference-server sanity); oracle: with a deviation the client's Handshake returns an error, no application data is exchanged, and no ConnectionState with HandshakeComplete exposes the unoffered value; non-trivial = a deviation from the complement of the offer was applied; distinct = (fingerprint, deviation, value)",
+		Quick: 4000, Thor: 300000,
+		Rule: "a world = one fingerprint (every predefined parrot by stratum, randomized, generated specs, fingerprinted copies) against the reference server applying exactly one deviation drawn from the complement of what the ON-WIRE hello offers, with a transcript that stays coherent: TLS 1.3 suite not offered, TLS 1.2 suite announced under TLS 1.3, GREASE suite (the wire value and another one), TLS 1.2 suite not offered, suite that is in Config.CipherSuites but not on the wire, key_share group not offered, group listed without a share answered without HelloRetryRequest, HelloRetryRequest for an unoffered group or for a group already shared, ALPN protocol not offered (or ALPN without an offer), compression method 1, a PSK selection without/with a bad index, a certificate compressed with an unadvertised algorithm, legacy session id not echoed, TLS 1.2 ECDHE curve not offered; modifiers: the deviating ServerHello follows an honest HelloRetryRequest; the caller's Config value is shared with a second connection of another fingerprint that is built at a drawn scheduler step while the handshake runs; 1 world in 16 is a real resumption in which the server announces a selected_identity beyond the identities on the wire (1 = exactly one past the end, 2, 7, 65535); 1 world in 8 applies no deviation and must complete (reference-server sanity); oracle: with a deviation the client's Handshake returns an error, no application data is exchanged, and no ConnectionState with HandshakeComplete exposes the unoffered value; non-trivial = a deviation from the complement of the offer was applied; distinct = (fingerprint, deviation, value)",
 		Assumptions: []string{"the reference server is a frozen fork of the repository's TLS stack with deviation hooks (sim/refsrv); it is validated in every batch by the no-deviation stratum and, in the self-test, against the standard-library client"},
 		Real:        []string{"utls client from /repo"},
 		Stub:        []string{"reference/byzantine server (sim/refsrv)", "transport, clock, crypto/rand"},
@@ -245,7 +245,79 @@ var deviations = []deviation{
 	}},
 }
 
+// runC12PSK: a real resumption in which the server announces a selected_identity the hello did not carry.
+func runC12PSK(c *Ctx) {
+	ch := c.Ch
+	ids := []IDInfo{{"Golang", tls.HelloGolang}}
+	for _, p := range AllParrots {
+		if isPSKParrot(p.Name) {
+			ids = append(ids, p)
+		}
+	}
+	idi := ids[ch.Pick(len(ids), "psk-id")]
+	w := c.NewWorld(simrt.Config{})
+	cfg := refCfg()
+	cache := tls.NewLRUClientSessionCache(4)
+	mk := func() *tls.Config {
+		cc := negCfg()
+		cc.ClientSessionCache = cache
+		cc.OmitEmptyPsk = true
+		return cc
+	}
+	o1 := RunConn(c, w, &ConnSpec{Name: "first", ID: idi.ID, CCfg: mk(), Peer: PeerRef, RefCfg: cfg, Payload: [][]byte{[]byte("first")}})
+	if !o1.CDone || string(o1.CRead) != "first" {
+		c.Finish(w, true)
+		c.R.Harness = "psk stratum: first connection failed: " + o1.Describe()
+		return
+	}
+	idx := []uint16{1, 1, 2, 7, 0xffff}[ch.Pick(5, "sel-identity")]
+	honest := ch.Bool(15, "honest")
+	if !honest {
+		cfg.Byz.SelectedIdentity, cfg.Byz.SelectedIdentitySet = idx, true
+	}
+	o := RunConn(c, w, &ConnSpec{Name: "second", ID: idi.ID, CCfg: mk(), Peer: PeerRef, RefCfg: cfg, Payload: [][]byte{[]byte("must-not-be-sent")},
+		Setup: func(l *simnet.Link) { l.Frag = ch.Bool(30, "frag") }})
+	c.Finish(w, true)
+	c.R.Class = fmt.Sprintf("psk-history/%s selected_identity=%d honest=%v", idi.Name, idx, honest)
+	if c.R.Violation != nil {
+		return
+	}
+	obs := ObserveHellos(o.Link)
+	if len(obs.CH) == 0 {
+		c.R.Harness = "psk stratum: no hello: " + o.Describe()
+		return
+	}
+	n := len(obs.CH[0].PSKIdentities)
+	if honest {
+		c.Probe("psk-honest")
+		if n > 0 && (!o.CDone || !o.CState.DidResume) {
+			c.R.Harness = "psk stratum: honest resumption with the reference server failed: " + o.Describe()
+		}
+		return
+	}
+	if n == 0 || len(cfg.Byz.Notes) == 0 {
+		c.Probe("psk-not-offered-or-not-accepted")
+		return
+	}
+	if int(idx) < n {
+		return // an offered index: not a deviation
+	}
+	c.R.NonTrivial = true
+	c.Probe("dev-psk-identity-beyond-offer")
+	if o.CDone {
+		c.Violate("unoffered-choice-accepted dev=psk-identity-beyond-offer", "%s: %d identities on the wire, server announced %d, handshake completed (DidResume=%v), server read %d bytes", c.R.Class, n, idx, o.CState.DidResume, len(o.SRead))
+		return
+	}
+	if len(o.SRead) > 0 || len(o.CRead) > 0 {
+		c.Violate("application-data-after-unoffered-choice dev=psk-identity-beyond-offer", "%s", c.R.Class)
+	}
+}
+
 func runC12(c *Ctx) {
+	if c.Run%16 == 5 {
+		runC12PSK(c)
+		return
+	}
 	ch := c.Ch
 	stratum := int64(-1)
 	if c.Run%2 == 0 {
@@ -277,7 +349,41 @@ func runC12(c *Ctx) {
 		}
 	}
 	cfg.NextProtos = of.ALPN
-	c.R.Class = fmt.Sprintf("%s/%s dev=%s(%s)", f.Kind, f.IDI.Name, devName, devVal)
+	// modifier: the deviation follows an honest HelloRetryRequest (the client must keep checking the
+	// ServerHello that comes after it)
+	afterHRR := false
+	switch devName {
+	case "session-id-not-echoed", "compression-method", "alpn-unoffered", "psk-selected-without-offer", "certcomp-unadvertised":
+		if cfg.MaxVersion != refsrv.VersionTLS12 && has16(of.Versions, 0x0304) && ch.Bool(35, "after-hrr") {
+			for _, g := range of.Groups {
+				if (g == 23 || g == 24 || g == 25) && !has16(of.Shares, g) {
+					cfg.Byz.HRRGroup = refsrv.CurveID(g)
+					cfg.Byz.AfterHRR = true
+					afterHRR = true
+					break
+				}
+			}
+		}
+	}
+	// modifier: the caller's Config value is shared with another connection of a different
+	// fingerprint that is being built while this handshake runs (the answer to "what did this
+	// client offer" is the hello on the wire, never the shared Config)
+	noise := devName != "none" && ch.Bool(25, "shared-config-noise")
+	c.R.Class = fmt.Sprintf("%s/%s dev=%s(%s) afterHRR=%v noise=%v", f.Kind, f.IDI.Name, devName, devVal, afterHRR, noise)
+	if noise {
+		pol := AllParrots[ch.Pick(len(AllParrots), "noise-id")]
+		if ch.Bool(50, "noise-firefox") {
+			// a family with a different offer (P-521, ffdhe groups, other suites)
+			pol = []IDInfo{{"Firefox_120", tls.HelloFirefox_120}, {"Firefox_105", tls.HelloFirefox_105}, {"Golang", tls.HelloGolang}}[ch.Pick(3, "noise-ff")]
+		}
+		at := ch.Range(0, 14, "noise-at")
+		w.Go("noise", func() {
+			simrt.WaitSteps(at)
+			u := tls.UClient(simnet.NewLink("noise").A, ccfg, pol.ID)
+			u.BuildHandshakeState()
+		})
+		c.Fault("shared-config", 1)
+	}
 	sp := &ConnSpec{ID: f.IDI.ID, Spec: f.Spec(), CCfg: ccfg, Peer: PeerRef, RefCfg: cfg, Payload: [][]byte{[]byte("must-not-be-sent")},
 		Setup: func(l *simnet.Link) { l.Frag = ch.Bool(30, "frag") }}
 	o := RunConn(c, w, sp)
